@@ -110,8 +110,10 @@ struct WebSocketFrame
       frame.maskKey[3] = data[pos++];
     }
 
-    // Payload
-    if (data.size() < pos + payloadLen)
+    // Payload. Compare against the bytes that are left (pos <= data.size() here):
+    // "pos + payloadLen" wraps for declared lengths close to 2^64 and would let a
+    // 10-byte header through to resize(2^64-1) -> std::length_error.
+    if (payloadLen > data.size() - pos)
     {
       return std::nullopt; // incomplete
     }
